@@ -305,6 +305,11 @@ func (g *gen) specExpr(e *env, x ast.Expr, want string, c *Clause) T {
 			}
 		}
 		if v, ok := e.vars[n.Name]; ok {
+			if v.AddrOf {
+				if pt, ok := v.GoT.Underlying().(*types.Pointer); ok {
+					return g.specLoad(e, v.S, pt.Elem())
+				}
+			}
 			return v
 		}
 		for _, gh := range g.unit.Ghosts {
@@ -739,6 +744,84 @@ func (g *gen) specCall(e *env, n *ast.CallExpr, want string, c *Clause) T {
 		ry := sx("select", sx("select", hx, sx("s.reg", y.S)), j)
 		q := fmt.Sprintf("(forall ((%s %s)) (! (=> %s (= %s %s)) :pattern (%s)))", j, g.idx, g.idxLt(j, end), rx, ry, rx)
 		return T{S: and(sx("=", sx("s.off", x.S), sx("s.off", y.S)), g.idxLe(sx("s.len", y.S), sx("s.len", x.S)), q), Sort: sBool}
+	case "res":
+		// res(callee, ordinal, index): the index-th result of the ordinal-th call of callee so far
+		if len(n.Args) != 3 {
+			return fail("res(callee, ordinal, index)")
+		}
+		cn := exprString(n.Args[0])
+		ov, ok1 := g.constExpr(n.Args[1])
+		iv, ok2 := g.constExpr(n.Args[2])
+		if !ok1 || !ok2 {
+			return fail("res needs constant ordinal and index")
+		}
+		o, _ := constant.Int64Val(ov)
+		i, _ := constant.Int64Val(iv)
+		rs, ok := g.callResults[fmt.Sprintf("%s#%d", cn, o)]
+		if !ok || int(i) >= len(rs) {
+			return fail("no recorded result %d of call#%d %s at this point", i, o, cn)
+		}
+		return rs[i]
+	case "as":
+		// as(x, *T): the pointer boxed in interface value x, typed so that its fields can be read
+		if len(n.Args) != 2 {
+			return fail("as(x, *T)")
+		}
+		x := arg(0, sIface)
+		tname := ""
+		ptr := false
+		switch tt := n.Args[1].(type) {
+		case *ast.StarExpr:
+			ptr = true
+			tname = exprString(tt.X)
+		default:
+			tname = exprString(n.Args[1])
+		}
+		var gt types.Type
+		if strings.Contains(tname, ".") {
+			gt = g.w.lookupGoType(tname)
+		} else if pk := g.pkgTypes(); pk != nil {
+			if obj, ok := pk.Scope().Lookup(tname).(*types.TypeName); ok {
+				gt = obj.Type()
+			}
+		}
+		if gt == nil {
+			return fail("as: unknown type %s", tname)
+		}
+		if ptr {
+			gt = types.NewPointer(gt)
+		}
+		ts, _ := g.sortOf(gt)
+		fn := "box." + sortID(ts)
+		g.declare(fn, fmt.Sprintf("(declare-fun %s (%s) Iface)\n(declare-fun un%s (Iface) %s)", fn, ts, fn, ts))
+		return T{S: sx("un"+fn, x.S), Sort: ts, GoT: gt}
+	case "hastype":
+		x := arg(0, sIface)
+		tname := ""
+		ptr := false
+		switch tt := n.Args[1].(type) {
+		case *ast.StarExpr:
+			ptr = true
+			tname = exprString(tt.X)
+		default:
+			tname = exprString(n.Args[1])
+		}
+		var gt types.Type
+		if strings.Contains(tname, ".") {
+			gt = g.w.lookupGoType(tname)
+		} else if pk := g.pkgTypes(); pk != nil {
+			if obj, ok := pk.Scope().Lookup(tname).(*types.TypeName); ok {
+				gt = obj.Type()
+			}
+		}
+		if gt == nil {
+			return fail("hastype: unknown type %s", tname)
+		}
+		if ptr {
+			gt = types.NewPointer(gt)
+		}
+		g.declare("itag", "(declare-fun itag (Iface) Int)")
+		return T{S: and(not(sx("=", x.S, "ifnil")), sx("=", sx("itag", x.S), fmt.Sprint(g.w.typeID(gt)))), Sort: sBool}
 	case "sameslice":
 		a, b := arg(0, sSlice), arg(1, sSlice)
 		return T{S: sx("=", a.S, b.S), Sort: sBool}
